@@ -77,7 +77,7 @@ theorem c06_request_reaches_handler (O : C06.Oracles) (a : C06.ActionDecl) (kw :
     (hreq : C06.createRequest O extra nsq a kw = .ok req)
     (fs : Facts) (stype : Str) (sacts : List SAct) (sact : SAct) (args : List (Str × Val))
     (ha : a.name = sact.name) (hst : a.serviceType = stype)
-    (hagree : C06.coerceArgs a.inArgs kw = .ok (sact.ins.map fun x => (x.name, out (argVal args x))))
+    (hagree : C06.coerceArgs O a.inArgs kw = .ok (sact.ins.map fun x => (x.name, out (argVal args x))))
     (hxn : C06.xmlNameOk sact.name = true) (hxa : ∀ x ∈ sact.ins, C06.xmlNameOk x.name = true)
     (hbr : '}' ∉ stype)
     (h1 : '#' ∉ stype) (h2 : '"' ∉ stype) (h3 : '#' ∉ sact.name) (h4 : '"' ∉ sact.name)
